@@ -472,6 +472,45 @@ def ob_fp12_one():
     return run_obligation("L3_Fp12_one_is_identity", ["gm_sm9::fields::fp12::<Fp12 as FieldElement>::one"], "constant", body)
 
 
+def ob_fp12_encoding():
+    """the 384-byte encoding of a GT element: coefficients in the order the standard fixes for the 1-2-4-12 tower (highest first at every
+    level: c2,c1,c0 of Fp12; c1,c0 of Fp4; c1,c0 of Fp2), each the 32-byte big-endian canonical value (out of Montgomery form). Also G1."""
+    from domains import BV
+    from proto import uf, B256, u256_val, u256_term, split_terms
+    def body(stats):
+        c = load_crate(CRATE)
+        FM = uf("SM9_FP_FROM_MONT", B256, B256)
+        def run(ctx):
+            dom = BV(); ex = Ex(c, dom, ctx)
+            ex.summaries = {"fp_from_mont": lambda ex_, argv: u256_val(FM(u256_term(dom, ex_.load(argv[0]))))}
+            co = [z3.BitVec("g%d" % i, 256) for i in range(12)]
+            f2 = lambda a, b: Agg([u256_val(a), u256_val(b)], name="Fp2")
+            f4 = lambda i: Agg([f2(co[i], co[i + 1]), f2(co[i + 2], co[i + 3])], name="Fp4")
+            x = Agg([f4(0), f4(4), f4(8)], name="Fp12")
+            r = ex.run_fn(c.find("<Fp12 as FieldElement>::to_bytes_be"), [Ref(Cell(x, "x"))])
+            return dom, co, r
+        paths = explore(run, max_paths=4)
+        check_all_panics(stats, paths)
+        lv = live_paths(paths)
+        if len(lv) != 1:
+            raise Inconclusive("Fp12::to_bytes_be: %d paths" % len(lv))
+        ctx, (dom, co, r) = lv[0]
+        if len(r.f) != 384:
+            raise Violation("Fp12::to_bytes_be returns %d bytes" % len(r.f))
+        # co[4*i + 2*j + k] = coefficient c_i.c_j.c_k ; encoded order: i = 2,1,0 ; j = 1,0 ; k = 1,0
+        want = []
+        for i in (2, 1, 0):
+            for j in (1, 0):
+                for k in (1, 0):
+                    want += split_terms(FM(co[4 * i + 2 * j + k]), 32)
+        discharge(stats, ctx.facts + ctx.pc, z3.And([dom.term(a) == b for a, b in zip(r.f, want)]),
+                  "Fp12 encoding = c2 || c1 || c0, each Fp4 as c1 || c0, each Fp2 as c1 || c0, each Fp as 32-byte big-endian canonical value", None, 60)
+        return {}
+    return run_obligation("L3_Fp12_to_bytes_be_order", ["gm_sm9::fields::fp12::<Fp12 as FieldElement>::to_bytes_be", "gm_sm9::fields::fp4::to_bytes_be", "gm_sm9::fields::fp2::to_bytes_be",
+                                                         "gm_sm9::fields::fp::to_bytes_be", "gm_sm9::u256::u256_to_be_bytes"], "all GT elements", body,
+                          ["fp_from_mont -> uninterpreted (L2_gmsm9_fp_from_mont)"])
+
+
 def ob_annex_anchor():
     """concrete anchor (validation of the conventions used above, not a solver result): the standard's Annex A signature example
     only verifies if e(P1, Ppub-s) and e(S, [h1]P2 + Ppub-s) have the standard's values"""
@@ -491,7 +530,7 @@ def ob_annex_anchor():
 def jobs_for(tier):
     return [ob_skeleton, ob_line_tangent, lambda: ob_line_chord(False), lambda: ob_line_chord(True), ob_line_mul, ob_final_exponent,
             lambda: ob_frobenius("fp12_frobenius", 1), lambda: ob_frobenius("fp12_frobenius2", 2), lambda: ob_frobenius("fp12_frobenius3", 3), lambda: ob_frobenius("fp12_frobenius6", 6),
-            lambda: ob_pi("point_pi1", 1, False), lambda: ob_pi("point_neg_pi2", 2, True), ob_fp12_one, ob_annex_anchor]
+            lambda: ob_pi("point_pi1", 1, False), lambda: ob_pi("point_neg_pi2", 2, True), ob_fp12_one, ob_fp12_encoding, ob_annex_anchor]
 
 
 def run(tier, seed, t0):
